@@ -235,13 +235,12 @@ fn hex_string(b: &[u8]) -> String {
 }
 
 /// objects 1 (catalog), 2 (pages), then `pages` (id, body) and `nodes`; returns the file
-fn write_doc(pages_kids: &[u64], pages_extra: &str, objects: &[(u64, Vec<u8>, bool)], layout: Layout) -> Vec<u8> {
+fn write_doc(root_body: &[u8], objects: &[(u64, Vec<u8>, bool)], layout: Layout) -> Vec<u8> {
     let mut w = PdfWriter::new(b"", "1.7");
     w.free(0, 0, 65535);
     let mut max_id = 2;
     w.object(1, 0, b"<< /Type /Catalog /Pages 2 0 R >>");
-    let kids = pages_kids.iter().map(|k| format!("{} 0 R", k)).collect::<Vec<_>>().join(" ");
-    w.object(2, 0, format!("<< /Type /Pages /Kids [{}] /Count {} {} >>", kids, pages_kids.len(), pages_extra).as_bytes());
+    w.object(2, 0, root_body);
     let crypt = if layout.encrypt { Some(crypt_setup()) } else { None };
     let mut members = vec![];
     for (id, body, is_stream) in objects {
@@ -283,7 +282,7 @@ fn graph_doc(g: &Graph, layout: Layout) -> Vec<u8> {
     for (id, n) in g {
         objs.push((*id, node_body(*id, n), matches!(n.ty, NT::Stm | NT::Form)));
     }
-    write_doc(&[3], "", &objs, layout)
+    write_doc(b"<< /Type /Pages /Kids [3 0 R] /Count 1 >>", &objs, layout)
 }
 
 // ---------------------------------------------------------------------------------------------------
@@ -484,6 +483,7 @@ fn exec_case(c: &Value) -> Value {
         "clone" => json!(exec_clone(c)),
         "import" => exec_import(c),
         "page" => json!(exec_page(c)),
+        "frompage" => json!(exec_frompage(c)),
         _ => json!("bad-case"),
     }
 }
@@ -772,12 +772,13 @@ fn clone_random(driver: &Driver, seed: u64, n: u64) -> Stream {
 }
 
 // =====================================================================================================
-// page documents (correspondence c20.page and generated inputs of the oracle)
+// page documents (correspondence c20.page / c20.frompage and generated inputs of the oracle)
 
 #[derive(Clone, Debug)]
 enum OpSpec {
-    /// names resource `name` of category `kind` (index into RES_KINDS)
-    Use(usize, u64),
+    /// names resource `name` of category `kind` (index into RES_KINDS); the last field selects among the
+    /// operators / positions that can name a resource of that category
+    Use(usize, u64, u8),
     /// BDC with a property list holding references
     Inline(Vec<u64>),
     /// anything else
@@ -789,68 +790,147 @@ struct ResSpec {
     kind: usize,
     name: u64,
     payload: u64,
-    /// gs: /K references (prim); font: one target (prim); xobject: one form (ref); others: one target, never followed
+    /// gs: /K references (prim); font: one target (prim); xobject: one form (ref); properties: one dictionary
+    /// (MaybeRef: rc); others: one target, never followed
     kids: Vec<u64>,
     /// oracle documents only: the entry's value verbatim
     raw: Option<String>,
 }
 
 #[derive(Clone, Copy, Debug, PartialEq)]
-enum ResMode { Direct, Indirect, Inherited }
+enum ResMode {
+    Direct,
+    Indirect,
+    /// the same /Resources object as page `i` of the document (that page is `Indirect`)
+    SharedWith(usize),
+}
+
+/// the inheritable entries a node of the page tree (a page or a /Pages node) carries itself. Boxes are value
+/// numbers: /MediaBox v (1..=40) = [0 0 100+v 200+v], /CropBox v (41..=80) = [1 1 50+v 60+v]
+#[derive(Clone, Debug, Default)]
+struct Attrs {
+    media: Option<u64>,
+    crop: Option<u64>,
+    rotate: Option<u64>,
+    res: Option<Vec<ResSpec>>,
+}
+
+#[derive(Clone, Debug)]
+struct TNode {
+    parent: Option<usize>,
+    attrs: Attrs,
+    /// the /Resources of this /Pages node as an indirect object
+    res_indirect: bool,
+}
+
+#[derive(Clone, Debug)]
+enum Kid { Node(usize), Page(usize) }
 
 #[derive(Clone, Debug)]
 struct PSpec {
-    media: [i64; 4],
-    crop: Option<[i64; 4]>,
-    trim: Option<[i64; 4]>,
-    rotate: i64,
+    attrs: Attrs,
+    /// /TrimBox v (81..=120) = [2 2 30+v 40+v]; not inheritable
+    trim: Option<u64>,
+    /// index into `PDoc::tree`
+    parent: usize,
     res_mode: ResMode,
-    res: Vec<ResSpec>,
     ops: Vec<OpSpec>,
     /// page-level /K references (land in `Page::other`)
     rest: Vec<u64>,
+    /// /Metadata reference, references inside /VP
+    meta: Option<u64>,
+    vp: Vec<u64>,
     flate: bool,
     split: bool,
+    no_contents: bool,
+    /// bit k: the category dictionary of kind k is an indirect object
+    cat_indirect: u8,
+    /// ExtGState entries are indirect objects
+    entry_indirect: bool,
+}
+
+struct PDoc {
+    /// node 0 is the root (object 2)
+    tree: Vec<TNode>,
+    kids: Vec<Vec<Kid>>,
+    pages: Vec<PSpec>,
+    /// resource names are shared by all categories (`/R1` may be a font and an XObject and …)
+    collide: bool,
 }
 
 const KIND_PREFIX: [&str; 7] = ["G", "F", "X", "C", "Pt", "Sh", "MC"];
 
-fn res_name(kind: usize, name: u64) -> String {
-    format!("{}{}", KIND_PREFIX[kind], name)
+fn res_name(kind: usize, name: u64, collide: bool) -> String {
+    if collide { format!("R{}", name) } else { format!("{}{}", KIND_PREFIX[kind], name) }
 }
 
-fn res_dict_text(res: &[ResSpec]) -> String {
+/// the number at the end of a resource name
+fn name_number(n: &str) -> String {
+    n.trim_start_matches(|c: char| !c.is_ascii_digit()).to_string()
+}
+
+fn media_rect(v: u64) -> [i64; 4] { [0, 0, 100 + v as i64, 200 + v as i64] }
+fn crop_rect(v: u64) -> [i64; 4] { [1, 1, 50 + v as i64, 60 + v as i64] }
+fn trim_rect(v: u64) -> [i64; 4] { [2, 2, 30 + v as i64, 40 + v as i64] }
+
+/// value number of a rectangle the library reports (inverse of the three encodings)
+fn rect_value(r: &pdf::object::Rectangle) -> String {
+    let (l, b, rt, t) = (r.left, r.bottom, r.right, r.top);
+    if l == 0.0 && b == 0.0 && t == rt + 100.0 { format!("{}", rt - 100.0) }
+    else if l == 1.0 && b == 1.0 && t == rt + 10.0 { format!("{}", rt - 50.0) }
+    else if l == 2.0 && b == 2.0 && t == rt + 10.0 { format!("{}", rt - 30.0) }
+    else { format!("?[{} {} {} {}]", l, b, rt, t) }
+}
+
+/// a /Resources dictionary; `alloc` turns a body into an indirect object and returns its number
+fn res_dict_text(res: &[ResSpec], collide: bool, cat_indirect: u8, entry_indirect: bool, alloc: &mut dyn FnMut(Vec<u8>) -> u64) -> String {
     let mut s = String::from("<<");
     for kind in 0..7 {
         let es: Vec<&ResSpec> = res.iter().filter(|r| r.kind == kind).collect();
         if es.is_empty() { continue; }
-        s.push_str(&format!(" /{} <<", RES_KINDS[kind]));
+        let mut c = String::from("<<");
         for e in es {
-            let n = res_name(kind, e.name);
-            if let Some(raw) = &e.raw { s.push_str(&format!(" /{} {}", n, raw)); continue; }
-            match kind {
-                0 => s.push_str(&format!(" /{} << /Type /ExtGState /LW 2 /P {} /K [{}] >>", n, e.payload, refs_txt(&e.kids))),
-                3 => s.push_str(&format!(" /{} /DeviceRGB", n)),
-                _ => match e.kids.first() { Some(t) => s.push_str(&format!(" /{} {} 0 R", n, t)), None => {} },
+            let n = res_name(kind, e.name, collide);
+            let val = if let Some(raw) = &e.raw { raw.clone() } else {
+                match kind {
+                    0 => format!("<< /Type /ExtGState /LW 2 /P {} /K [{}] >>", e.payload, refs_txt(&e.kids)),
+                    3 => "/DeviceRGB".to_string(),
+                    _ => match e.kids.first() { Some(t) => format!("{} 0 R", t), None => continue },
+                }
+            };
+            if kind == 0 && entry_indirect {
+                c.push_str(&format!(" /{} {} 0 R", n, alloc(val.into_bytes())));
+            } else {
+                c.push_str(&format!(" /{} {}", n, val));
             }
         }
-        s.push_str(" >>");
+        c.push_str(" >>");
+        if cat_indirect & (1 << kind) != 0 {
+            s.push_str(&format!(" /{} {} 0 R", RES_KINDS[kind], alloc(c.into_bytes())));
+        } else {
+            s.push_str(&format!(" /{} {}", RES_KINDS[kind], c));
+        }
     }
     s.push_str(" >>");
     s
 }
 
-fn ops_text_of(ops: &[OpSpec]) -> String {
+fn ops_text_of(ops: &[OpSpec], collide: bool) -> String {
     let mut s = String::new();
     for op in ops {
         match op {
-            OpSpec::Use(0, n) => s.push_str(&format!("/{} gs\n", res_name(0, *n))),
-            OpSpec::Use(1, n) => s.push_str(&format!("BT /{} 12 Tf ET\n", res_name(1, *n))),
-            OpSpec::Use(2, n) => s.push_str(&format!("/{} Do\n", res_name(2, *n))),
-            OpSpec::Use(3, n) => s.push_str(&format!("/{} cs\n", res_name(3, *n))),
-            OpSpec::Use(4, n) => s.push_str(&format!("/Pattern cs /{} scn\n", res_name(4, *n))),
-            OpSpec::Use(5, n) => s.push_str(&format!("/{} sh\n", res_name(5, *n))),
-            OpSpec::Use(_, n) => s.push_str(&format!("/OC /{} BDC EMC\n", res_name(6, *n))),
+            OpSpec::Use(0, n, _) => s.push_str(&format!("/{} gs\n", res_name(0, *n, collide))),
+            OpSpec::Use(1, n, v) => if v % 2 == 0 { s.push_str(&format!("BT /{} 12 Tf ET\n", res_name(1, *n, collide))) } else { s.push_str(&format!("/{} 9.5 Tf\n", res_name(1, *n, collide))) },
+            OpSpec::Use(2, n, _) => s.push_str(&format!("/{} Do\n", res_name(2, *n, collide))),
+            OpSpec::Use(3, n, v) => match v % 3 {
+                0 => s.push_str(&format!("/{} cs\n", res_name(3, *n, collide))),
+                1 => s.push_str(&format!("/{} CS\n", res_name(3, *n, collide))),
+                // an inline image whose colour space is a resource name
+                _ => s.push_str(&format!("BI /W 1 /H 1 /BPC 8 /CS /{} ID\nA\nEI\n", res_name(3, *n, collide))),
+            },
+            OpSpec::Use(4, n, v) => if v % 2 == 0 { s.push_str(&format!("/Pattern cs /{} scn\n", res_name(4, *n, collide))) } else { s.push_str(&format!("/Pattern CS 0.5 /{} SCN\n", res_name(4, *n, collide))) },
+            OpSpec::Use(5, n, _) => s.push_str(&format!("/{} sh\n", res_name(5, *n, collide))),
+            OpSpec::Use(_, n, v) => if v % 2 == 0 { s.push_str(&format!("/OC /{} BDC EMC\n", res_name(6, *n, collide))) } else { s.push_str(&format!("/Tag /{} DP\n", res_name(6, *n, collide))) },
             OpSpec::Inline(k) => s.push_str(&format!("/Span << /K [{}] >> BDC EMC\n", refs_txt(k))),
             OpSpec::Other(t) => s.push_str(["q\n", "Q\n", "1 0 0 1 5 5 cm\n", "0 0 10 10 re\n", "f\n", "0.5 g\n", "BT (text) Tj ET\n", "1 0 0 RG\n"][(*t % 8) as usize]),
         }
@@ -858,84 +938,174 @@ fn ops_text_of(ops: &[OpSpec]) -> String {
     s
 }
 
-/// model request fields of a page: `ops/res/rest`
-fn page_model(p: &PSpec) -> String {
-    let ops: Vec<String> = p.ops.iter().map(|o| match o {
-        OpSpec::Use(k, n) => format!("u{}.{}", k, n),
-        OpSpec::Inline(k) => format!("i:{}", edges_str(&k.iter().map(|t| ('p', *t)).collect::<Vec<_>>())),
-        OpSpec::Other(t) => format!("o{}", t),
-    }).collect();
-    let res: Vec<String> = p.res.iter().map(|r| {
+fn res_model(res: &[ResSpec]) -> String {
+    let v: Vec<String> = res.iter().map(|r| {
         let kids: Vec<(char, u64)> = match r.kind {
             0 | 1 => r.kids.iter().map(|t| ('p', *t)).collect(),
-            2 => r.kids.iter().map(|t| ('t', *t)).collect(),
+            2 | 4 => r.kids.iter().map(|t| ('t', *t)).collect(), // Ref<XObject>, Ref<Pattern>
             6 => r.kids.iter().map(|t| ('r', *t)).collect(), // MaybeRef<Dictionary>: clone_rcref
             _ => vec![],
         };
         let payload = if r.kind == 0 { r.payload } else { 0 };
         format!("{}.{}.{}:{}", r.kind, r.name, payload, edges_str(&kids))
     }).collect();
-    format!("{}/{}/{}", if ops.is_empty() { "-".to_string() } else { ops.join(",") }, if res.is_empty() { "-".to_string() } else { res.join(",") },
-        edges_str(&p.rest.iter().map(|t| ('p', *t)).collect::<Vec<_>>()))
+    if v.is_empty() { "-".into() } else { v.join(",") }
+}
+
+impl PDoc {
+    /// the nodes above page `i`, nearest first
+    fn ancestors(&self, i: usize) -> Vec<usize> {
+        let mut v = vec![];
+        let mut cur = Some(self.pages[i].parent);
+        while let Some(n) = cur { v.push(n); cur = self.tree[n].parent; }
+        v
+    }
+    fn chain<T>(&self, i: usize, f: &dyn Fn(&Attrs) -> Option<T>) -> Vec<Option<T>> {
+        let mut v = vec![f(&self.pages[i].attrs)];
+        for n in self.ancestors(i) { v.push(f(&self.tree[n].attrs)); }
+        v
+    }
+    /// model request field of page `i`: `ops/resChain/rest/media/crop/trim/rotate`
+    fn page_model(&self, i: usize) -> String {
+        let p = &self.pages[i];
+        let ops: Vec<String> = if p.no_contents { vec![] } else { p.ops.iter().map(|o| match o {
+            OpSpec::Use(k, n, _) => format!("u{}.{}", k, n),
+            OpSpec::Inline(k) => format!("i:{}", edges_str(&k.iter().map(|t| ('p', *t)).collect::<Vec<_>>())),
+            OpSpec::Other(t) => format!("o{}", t),
+        }).collect() };
+        let opt = |c: Vec<Option<u64>>| c.iter().map(|x| x.map(|v| v.to_string()).unwrap_or("!".into())).collect::<Vec<_>>().join("~");
+        let res: Vec<String> = self.chain(i, &|a| a.res.clone()).iter().map(|l| match l { None => "!".to_string(), Some(r) => res_model(r) }).collect();
+        let mut rest: Vec<(char, u64)> = vec![];
+        if let Some(m) = p.meta { rest.push(('p', m)); }
+        for x in &p.vp { rest.push(('p', *x)); }
+        for x in &p.rest { rest.push(('p', *x)); }
+        format!("{}/{}/{}/{}/{}/{}/{}", if ops.is_empty() { "-".to_string() } else { ops.join(",") }, res.join("~"), edges_str(&rest),
+            opt(self.chain(i, &|a| a.media)), opt(self.chain(i, &|a| a.crop)), p.trim.map(|v| v.to_string()).unwrap_or("!".into()), opt(self.chain(i, &|a| a.rotate)))
+    }
 }
 
 fn box_txt(b: &[i64; 4]) -> String { format!("[{} {} {} {}]", b[0], b[1], b[2], b[3]) }
 
-/// pages are objects 3.., their content streams and indirect resource dictionaries follow; graph nodes keep their numbers (≥ 100)
-fn page_doc(pages: &[PSpec], g: &Graph, extra: &[(u64, Vec<u8>, bool)], layout: Layout) -> Vec<u8> {
+fn attrs_text(a: &Attrs) -> String {
+    let mut d = String::new();
+    if let Some(v) = a.media { d.push_str(&format!(" /MediaBox {}", box_txt(&media_rect(v)))); }
+    if let Some(v) = a.crop { d.push_str(&format!(" /CropBox {}", box_txt(&crop_rect(v)))); }
+    if let Some(v) = a.rotate { d.push_str(&format!(" /Rotate {}", v)); }
+    d
+}
+
+/// Object numbers: 2 root, pages 3.., content streams after them (two per page), /Pages nodes 30.., indirect
+/// resource dictionaries / category dictionaries / entries 40..99; graph nodes keep their numbers (≥ 100)
+fn page_doc(doc: &PDoc, g: &Graph, extra: &[(u64, Vec<u8>, bool)], layout: Layout) -> Vec<u8> {
     let mut objs: Vec<(u64, Vec<u8>, bool)> = vec![];
-    let np = pages.len() as u64;
-    let mut kids = vec![];
-    let mut inherited_res: Option<String> = None;
-    for (i, p) in pages.iter().enumerate() {
+    let np = doc.pages.len() as u64;
+    let node_id = |n: usize| if n == 0 { 2 } else { 29 + n as u64 };
+    let mut next_extra = 40u64;
+    let mut extras: Vec<(u64, Vec<u8>, bool)> = vec![];
+    let mut alloc = |body: Vec<u8>| -> u64 { let id = next_extra; next_extra += 1; extras.push((id, body, false)); id };
+    // own /Resources objects of the pages that have an indirect one
+    let mut res_obj: BTreeMap<usize, u64> = BTreeMap::new();
+    for (i, p) in doc.pages.iter().enumerate() {
+        if let (ResMode::Indirect, Some(res)) = (p.res_mode, &p.attrs.res) {
+            let body = res_dict_text(res, doc.collide, p.cat_indirect, p.entry_indirect, &mut alloc);
+            let id = alloc(body.into_bytes());
+            res_obj.insert(i, id);
+        }
+    }
+    for (i, p) in doc.pages.iter().enumerate() {
         let pid = 3 + i as u64;
-        kids.push(pid);
         let cid = 3 + np + 2 * i as u64;
-        let rid = 3 + 3 * np + i as u64;
-        let mut d = format!("<< /Type /Page /Parent 2 0 R /MediaBox {}", box_txt(&p.media));
-        if let Some(c) = &p.crop { d.push_str(&format!(" /CropBox {}", box_txt(c))); }
-        if let Some(t) = &p.trim { d.push_str(&format!(" /TrimBox {}", box_txt(t))); }
-        if p.rotate != 0 { d.push_str(&format!(" /Rotate {}", p.rotate)); }
-        match p.res_mode {
-            ResMode::Direct => d.push_str(&format!(" /Resources {}", res_dict_text(&p.res))),
-            ResMode::Indirect => { d.push_str(&format!(" /Resources {} 0 R", rid)); objs.push((rid, res_dict_text(&p.res).into_bytes(), false)); }
-            ResMode::Inherited => { inherited_res = Some(res_dict_text(&p.res)); }
+        let mut d = format!("<< /Type /Page /Parent {} 0 R{}", node_id(p.parent), attrs_text(&p.attrs));
+        if let Some(t) = p.trim { d.push_str(&format!(" /TrimBox {}", box_txt(&trim_rect(t)))); }
+        if let Some(res) = &p.attrs.res {
+            match p.res_mode {
+                ResMode::Direct => { let t = res_dict_text(res, doc.collide, p.cat_indirect, p.entry_indirect, &mut alloc); d.push_str(&format!(" /Resources {}", t)); }
+                ResMode::Indirect => d.push_str(&format!(" /Resources {} 0 R", res_obj[&i])),
+                ResMode::SharedWith(j) => d.push_str(&format!(" /Resources {} 0 R", res_obj[&j])),
+            }
         }
-        let text = ops_text_of(&p.ops);
-        let mk = |t: &str| -> Vec<u8> { if p.flate { stream_body("/Filter /FlateDecode", &zlib(t.as_bytes())) } else { stream_body("", t.as_bytes()) } };
-        if p.split && text.lines().count() >= 2 {
-            let lines: Vec<&str> = text.lines().collect();
-            let h = lines.len() / 2;
-            objs.push((cid, mk(&(lines[..h].join("\n") + "\n")), true));
-            objs.push((cid + 1, mk(&(lines[h..].join("\n") + "\n")), true));
-            d.push_str(&format!(" /Contents [{} 0 R {} 0 R]", cid, cid + 1));
-        } else {
-            objs.push((cid, mk(&text), true));
-            d.push_str(&format!(" /Contents {} 0 R", cid));
+        if !p.no_contents {
+            let text = ops_text_of(&p.ops, doc.collide);
+            let mk = |t: &str| -> Vec<u8> { if p.flate { stream_body("/Filter /FlateDecode", &zlib(t.as_bytes())) } else { stream_body("", t.as_bytes()) } };
+            if p.split && text.lines().count() >= 2 {
+                let lines: Vec<&str> = text.lines().collect();
+                let h = lines.len() / 2;
+                objs.push((cid, mk(&(lines[..h].join("\n") + "\n")), true));
+                objs.push((cid + 1, mk(&(lines[h..].join("\n") + "\n")), true));
+                d.push_str(&format!(" /Contents [{} 0 R {} 0 R]", cid, cid + 1));
+            } else {
+                objs.push((cid, mk(&text), true));
+                d.push_str(&format!(" /Contents {} 0 R", cid));
+            }
         }
+        if let Some(m) = p.meta { d.push_str(&format!(" /Metadata {} 0 R", m)); }
+        if !p.vp.is_empty() { d.push_str(&format!(" /VP [<< /Type /Viewport /K [{}] >>]", refs_txt(&p.vp))); }
         if !p.rest.is_empty() { d.push_str(&format!(" /K [{}]", refs_txt(&p.rest))); }
         d.push_str(" >>");
         objs.push((pid, d.into_bytes(), false));
     }
+    // the /Pages nodes
+    fn count(doc: &PDoc, n: usize) -> usize {
+        doc.kids[n].iter().map(|k| match k { Kid::Page(_) => 1, Kid::Node(m) => count(doc, *m) }).sum()
+    }
+    let mut root_body = vec![];
+    for (n, node) in doc.tree.iter().enumerate() {
+        let kids: Vec<String> = doc.kids[n].iter().map(|k| match k { Kid::Page(i) => format!("{} 0 R", 3 + *i as u64), Kid::Node(m) => format!("{} 0 R", node_id(*m)) }).collect();
+        let mut d = format!("<< /Type /Pages /Kids [{}] /Count {}{}", kids.join(" "), count(doc, n), attrs_text(&node.attrs));
+        if let Some(p) = node.parent { d.push_str(&format!(" /Parent {} 0 R", node_id(p))); }
+        if let Some(res) = &node.attrs.res {
+            let t = res_dict_text(res, doc.collide, 0, false, &mut alloc);
+            if node.res_indirect { d.push_str(&format!(" /Resources {} 0 R", alloc(t.into_bytes()))); } else { d.push_str(&format!(" /Resources {}", t)); }
+        }
+        d.push_str(" >>");
+        if n == 0 { root_body = d.into_bytes(); } else { objs.push((node_id(n), d.into_bytes(), false)); }
+    }
+    objs.extend(extras);
     for (id, n) in g {
         objs.push((*id, node_body(*id, n), matches!(n.ty, NT::Stm | NT::Form)));
     }
     for e in extra { objs.push(e.clone()); }
-    let pages_extra = inherited_res.map(|r| format!("/Resources {}", r)).unwrap_or_default();
-    write_doc(&kids, &pages_extra, &objs, layout)
+    write_doc(&root_body, &objs, layout)
 }
 
-/// case = {"kind":"page","doc":hex,"pages":[indices..],"types":{..}} → "<page results> |<canonical objects>"
+/// entries of a resource dictionary as written by the library: `kind.name.payload:kids` (kids through `tr`)
+fn res_entries(resd: &Primitive, tr: &dyn Fn(&u64) -> String) -> Vec<String> {
+    let mut entries = vec![];
+    if let Primitive::Dictionary(d) = resd {
+        for (kind, kn) in RES_KINDS.iter().enumerate() {
+            if let Some(Primitive::Dictionary(cat)) = d.get(kn) {
+                for (name, v) in cat.iter() {
+                    let mut ks = vec![];
+                    collect_refs(v, &mut ks);
+                    let payload = match v { Primitive::Dictionary(e) => e.get("P").and_then(|p| p.as_integer().ok()).unwrap_or(0), _ => 0 };
+                    entries.push(format!("{}.{}.{}:{}", kind, name_number(name.as_str()), payload, ks.iter().map(tr).collect::<Vec<_>>().join("+")));
+                }
+            }
+        }
+    }
+    entries.sort();
+    entries
+}
+
+fn boxes_str(pb: &PageBuilder) -> String {
+    format!("{}.{}.{}.{}", pb.media_box.as_ref().map(rect_value).unwrap_or("!".into()), pb.crop_box.as_ref().map(rect_value).unwrap_or("!".into()),
+        pb.trim_box.as_ref().map(rect_value).unwrap_or("!".into()), pb.rotate)
+}
+
+/// case = {"kind":"page","doc":hex,"pages":[indices..],"types":{..},"pre":n} → "<page results> |<canonical objects>"
 fn exec_page(case: &Value) -> String {
     let doc = unhex(case["doc"].as_str().unwrap_or("-")).unwrap_or_default();
     let pages: Vec<u32> = case["pages"].as_array().map(|a| a.iter().filter_map(|x| x.as_u64()).map(|x| x as u32).collect()).unwrap_or_default();
+    let pre = case["pre"].as_u64().unwrap_or(0);
     let types = &case["types"];
     let ty = |id: u64| types[id.to_string()].as_str().unwrap_or("").to_string();
     let old = match FileOptions::uncached().load(doc) { Ok(f) => f, Err(e) => return format!("load-failed:{}", e) };
     let mut builder = PdfBuilder::new(FileOptions::uncached());
+    // the target document is not empty
+    for i in 0..pre { let _ = builder.storage.create(Primitive::Integer(i as i32)); }
     let mut rec = Rec { inner: &mut builder.storage, created: vec![] };
-    // per page: Err(outcome) | Ok((resource dictionary as written, rest references))
-    let mut outs: Vec<Result<(Primitive, Vec<u64>), String>> = vec![];
+    // per page: Err(outcome) | Ok((resource dictionary as written, rest references, boxes))
+    let mut outs: Vec<Result<(Primitive, Vec<u64>, String), String>> = vec![];
     {
         let mut imp = Importer::new(old.resolver(), &mut rec);
         for pi in pages {
@@ -946,7 +1116,7 @@ fn exec_page(case: &Value) -> String {
                     let mut rest = vec![];
                     for o in [&pb.metadata, &pb.lgi, &pb.vp] { if let Some(p) = o { collect_refs(p, &mut rest); } }
                     collect_refs(&Primitive::Dictionary(pb.other.clone()), &mut rest);
-                    outs.push(Ok((resd, rest)));
+                    outs.push(Ok((resd, rest, boxes_str(&pb))));
                 }
                 Ok(Err(_)) => outs.push(Err("err".into())),
                 Err(_) => { outs.push(Err("panic".into())); break; }
@@ -963,30 +1133,50 @@ fn exec_page(case: &Value) -> String {
     let tr = |k: &u64| match back.get(k) { Some(Some(o)) => format!("{}", o), Some(None) => format!("?nopayload{}", k), None => format!("?outside{}", k) };
     let page_strs: Vec<String> = outs.iter().map(|o| match o {
         Err(e) => e.clone(),
-        Ok((resd, rest)) => {
-            let mut entries = vec![];
-            if let Primitive::Dictionary(d) = resd {
-                for (kind, kn) in RES_KINDS.iter().enumerate() {
-                    if let Some(Primitive::Dictionary(cat)) = d.get(kn) {
-                        for (name, v) in cat.iter() {
-                            let num = name.as_str().trim_start_matches(KIND_PREFIX[kind]).to_string();
-                            let mut ks = vec![];
-                            collect_refs(v, &mut ks);
-                            let payload = match v { Primitive::Dictionary(e) => e.get("P").and_then(|p| p.as_integer().ok()).unwrap_or(0), _ => 0 };
-                            entries.push(format!("{}.{}.{}:{}", kind, num, payload, ks.iter().map(tr).collect::<Vec<_>>().join("+")));
-                        }
-                    }
-                }
-            }
-            entries.sort();
-            format!("ok/{}/{}", entries.join(","), rest.iter().map(tr).collect::<Vec<_>>().join("+"))
-        }
+        Ok((resd, rest, boxes)) => format!("ok/{}/{}/{}", res_entries(resd, &tr).join(","), rest.iter().map(tr).collect::<Vec<_>>().join("+"), boxes),
     }).collect();
     let typed = |o: u64| matches!(ty(o).as_str(), "Res" | "Form");
-    format!("{} |{}", page_strs.join(" "), canon_objects(&objs, &typed))
+    let clobber = if created.iter().any(|r| r.id < pre) { " !copy-took-a-used-number" } else { "" };
+    format!("{} |{}{}", page_strs.join(" "), canon_objects(&objs, &typed), clobber)
 }
 
-/// the model's `c20.page` answer in the same canonical form
+/// case = {"kind":"frompage","doc":hex,"pages":[..]} → per page `ok/<entries>/<boxes>` | `err`
+fn exec_frompage(case: &Value) -> String {
+    let doc = unhex(case["doc"].as_str().unwrap_or("-")).unwrap_or_default();
+    let pages: Vec<u32> = case["pages"].as_array().map(|a| a.iter().filter_map(|x| x.as_u64()).map(|x| x as u32).collect()).unwrap_or_default();
+    let old = match FileOptions::uncached().load(doc) { Ok(f) => f, Err(e) => return format!("load-failed:{}", e) };
+    let res = old.resolver();
+    let ident = |k: &u64| format!("{}", k);
+    pages.iter().map(|pi| {
+        let page = match old.get_page(*pi) { Ok(p) => p, Err(e) => return format!("get_page-failed:{}", e) };
+        match catch_unwind(AssertUnwindSafe(|| PageBuilder::from_page(&page, &res))) {
+            Ok(Ok(pb)) => {
+                let resd = catch_unwind(AssertUnwindSafe(|| pb.resources.to_primitive(&mut pdf::object::NoUpdate))).ok().and_then(|r| r.ok()).unwrap_or(Primitive::Null);
+                format!("ok/{}/{}", res_entries(&resd, &ident).join(","), boxes_str(&pb))
+            }
+            Ok(Err(_)) => "err".to_string(),
+            Err(_) => "panic".to_string(),
+        }
+    }).collect::<Vec<_>>().join(" ")
+}
+
+/// the model's `c20.frompage` answer in the same form (edge kinds dropped, entries sorted)
+fn canon_model_frompage(resp: &str) -> String {
+    let f: Vec<&str> = resp.split('/').collect();
+    if f.len() != 3 || f[0] != "ok" { return resp.to_string(); }
+    let mut entries: Vec<String> = if f[1] == "-" { vec![] } else {
+        f[1].split(',').map(|e| {
+            let h: Vec<&str> = e.split(':').collect();
+            let kids = h.get(1).cloned().unwrap_or("-");
+            let ks = if kids == "-" { String::new() } else { kids.split('+').map(|k| k[1..].to_string()).collect::<Vec<_>>().join("+") };
+            format!("{}:{}", h[0], ks)
+        }).collect()
+    };
+    entries.sort();
+    format!("ok/{}/{}", entries.join(","), f[2])
+}
+
+/// the model's `c20.tpage` answer in the same canonical form
 fn canon_model_page(resp: &str, typed: &dyn Fn(u64) -> bool) -> String {
     let parts: Vec<&str> = resp.split('|').collect();
     if parts.len() != 3 { return format!("model:{}", resp); }
@@ -996,25 +1186,25 @@ fn canon_model_page(resp: &str, typed: &dyn Fn(u64) -> bool) -> String {
     let trs = |ks: &str| -> String { if ks == "-" { String::new() } else { ks.split('+').map(tr).collect::<Vec<_>>().join("+") } };
     let page_strs: Vec<String> = parts[0].trim().split(' ').filter(|x| !x.is_empty() && *x != "-").map(|pg| {
         let f: Vec<&str> = pg.split('/').collect();
-        if f.len() != 3 || f[0] != "ok" { return pg.to_string(); }
+        if f.len() != 4 || f[0] != "ok" { return pg.to_string(); }
         let mut entries: Vec<String> = if f[1] == "-" { vec![] } else {
             f[1].split(',').map(|e| { let h: Vec<&str> = e.split(':').collect(); format!("{}:{}", h[0], trs(h.get(1).cloned().unwrap_or("-"))) }).collect()
         };
         entries.sort();
-        format!("ok/{}/{}", entries.join(","), trs(f[2]))
+        format!("ok/{}/{}/{}", entries.join(","), trs(f[2]), f[3])
     }).collect();
     format!("{} |{}", page_strs.join(" "), canon_objects(&objs, typed))
 }
 
-fn random_pspec(rng: &mut Rng, g: &Graph, all_kinds: bool) -> PSpec {
+fn random_res_list(rng: &mut Rng, g: &Graph, all_kinds: bool) -> Vec<ResSpec> {
     let ids: Vec<u64> = g.keys().cloned().collect();
     let forms: Vec<u64> = g.iter().filter(|(_, n)| n.ty == NT::Form).map(|(i, _)| *i).collect();
     let dicts: Vec<u64> = g.iter().filter(|(_, n)| n.ty == NT::Dict).map(|(i, _)| *i).collect();
     let mut res = vec![];
-    let nres = rng.below(6);
-    for _ in 0..nres {
-        let kind = if all_kinds { rng.usize(7) } else { rng.usize(3) };
-        let name = 1 + rng.below(4);
+    for _ in 0..rng.below(7) {
+        let kind = if all_kinds { rng.usize(7) } else { *rng.pick(&[0usize, 1, 2, 6]) };
+        // a small name space: with shared names the same name turns up in several categories
+        let name = 1 + rng.below(3);
         if res.iter().any(|r: &ResSpec| r.kind == kind && r.name == name) { continue; }
         let kids: Vec<u64> = match kind {
             0 => (0..rng.below(3)).filter_map(|_| if ids.is_empty() { None } else { Some(*rng.pick(&ids)) }).collect(),
@@ -1025,70 +1215,302 @@ fn random_pspec(rng: &mut Rng, g: &Graph, all_kinds: bool) -> PSpec {
         };
         res.push(ResSpec { kind, name, payload: 1000 + rng.below(9000), kids, raw: None });
     }
-    let mut ops = vec![];
-    for _ in 0..rng.below(8) {
-        let c = rng.below(10);
-        if c < 6 {
-            // mostly names that exist, sometimes one that does not
-            let (kind, name) = if !res.is_empty() && rng.chance(5, 6) { let r = rng.pick(&res); (r.kind, r.name) } else { (if all_kinds { rng.usize(7) } else { rng.usize(3) }, 1 + rng.below(5)) };
-            ops.push(OpSpec::Use(kind, name));
-        } else if c < 7 && !ids.is_empty() {
-            ops.push(OpSpec::Inline((0..1 + rng.below(2)).map(|_| *rng.pick(&ids)).collect()));
-        } else {
-            ops.push(OpSpec::Other(rng.below(8)));
+    res
+}
+
+/// a page tree of depth ≤ 3 whose depth-first order is the page order; attributes placed at every level
+fn random_tree(rng: &mut Rng, np: usize) -> (Vec<TNode>, Vec<Vec<Kid>>, Vec<usize>) {
+    let mut tree = vec![TNode { parent: None, attrs: Attrs::default(), res_indirect: false }];
+    let mut kids: Vec<Vec<Kid>> = vec![vec![]];
+    let mut parents = vec![];
+    let (mut cur1, mut cur2): (Option<usize>, Option<usize>) = (None, None);
+    for i in 0..np {
+        let depth = *rng.pick(&[0, 0, 1, 1, 1, 2, 2]);
+        let mut new_node = |tree: &mut Vec<TNode>, kids: &mut Vec<Vec<Kid>>, parent: usize| -> usize {
+            tree.push(TNode { parent: Some(parent), attrs: Attrs::default(), res_indirect: false });
+            kids.push(vec![]);
+            let n = tree.len() - 1;
+            kids[parent].push(Kid::Node(n));
+            n
+        };
+        let parent = match depth {
+            0 => { cur1 = None; cur2 = None; 0 }
+            1 => {
+                if cur1.is_none() || rng.chance(1, 2) { cur1 = Some(new_node(&mut tree, &mut kids, 0)); }
+                cur2 = None;
+                cur1.unwrap()
+            }
+            _ => {
+                if cur1.is_none() || rng.chance(1, 3) { cur1 = Some(new_node(&mut tree, &mut kids, 0)); cur2 = None; }
+                if cur2.is_none() || rng.chance(1, 2) { cur2 = Some(new_node(&mut tree, &mut kids, cur1.unwrap())); }
+                cur2.unwrap()
+            }
+        };
+        kids[parent].push(Kid::Page(i));
+        parents.push(parent);
+    }
+    (tree, kids, parents)
+}
+
+/// options of the random page documents
+#[derive(Clone, Copy)]
+struct DocOpts { all_kinds: bool, max_pages: u64 }
+
+/// a document: page tree, inheritable attributes at every level (absent / own / parent / grand-parent, also at
+/// several levels at once), resources per level, operations that name them
+fn random_pdoc(rng: &mut Rng, g: &Graph, o: DocOpts, res_gen: &mut dyn FnMut(&mut Rng) -> Vec<ResSpec>) -> PDoc {
+    let ids: Vec<u64> = g.keys().cloned().collect();
+    let np = 1 + rng.below(o.max_pages) as usize;
+    let (mut tree, kids, parents) = random_tree(rng, np);
+    let mut next_media = 1 + rng.below(10);
+    let mut next_crop = 41 + rng.below(10);
+    let mut fill = |rng: &mut Rng, a: &mut Attrs, p_media: (u64, u64), p_crop: (u64, u64), p_rot: (u64, u64), p_res: (u64, u64), res_gen: &mut dyn FnMut(&mut Rng) -> Vec<ResSpec>| {
+        if rng.chance(p_media.0, p_media.1) { a.media = Some(next_media); next_media += 1; }
+        if rng.chance(p_crop.0, p_crop.1) { a.crop = Some(next_crop); next_crop += 1; }
+        if rng.chance(p_rot.0, p_rot.1) { a.rotate = Some(*rng.pick(&[0u64, 90, 180, 270])); }
+        if rng.chance(p_res.0, p_res.1) { a.res = Some(res_gen(rng)); }
+    };
+    for n in tree.iter_mut() {
+        fill(rng, &mut n.attrs, (1, 2), (1, 3), (1, 4), (1, 2), res_gen);
+        n.res_indirect = rng.chance(1, 3);
+    }
+    let mut pages: Vec<PSpec> = vec![];
+    for i in 0..np {
+        let mut attrs = Attrs::default();
+        fill(rng, &mut attrs, (1, 2), (1, 3), (1, 3), (1, 2), res_gen);
+        pages.push(PSpec {
+            attrs,
+            trim: if rng.chance(1, 4) { Some(81 + rng.below(40)) } else { None },
+            parent: parents[i],
+            res_mode: *rng.pick(&[ResMode::Direct, ResMode::Direct, ResMode::Indirect]),
+            ops: vec![],
+            rest: (0..rng.below(3)).filter_map(|_| if ids.is_empty() { None } else { Some(*rng.pick(&ids)) }).collect(),
+            meta: if !ids.is_empty() && rng.chance(1, 5) { Some(*rng.pick(&ids)) } else { None },
+            vp: if !ids.is_empty() && rng.chance(1, 6) { vec![*rng.pick(&ids)] } else { vec![] },
+            flate: rng.chance(1, 2),
+            split: rng.chance(1, 4),
+            no_contents: rng.chance(1, 12),
+            cat_indirect: if rng.chance(1, 3) { rng.below(128) as u8 } else { 0 },
+            entry_indirect: rng.chance(1, 5),
+        });
+    }
+    let mut doc = PDoc { tree, kids, pages, collide: rng.chance(2, 3) };
+    // nearly always there is a /MediaBox and a /Resources somewhere up the chain (else importing is an error)
+    for i in 0..np {
+        if doc.chain(i, &|a| a.media).iter().all(|x| x.is_none()) && rng.chance(9, 10) {
+            let anc = doc.ancestors(i);
+            let n = *rng.pick(&anc);
+            doc.tree[n].attrs.media = Some(next_media); next_media += 1;
+        }
+        if doc.chain(i, &|a| a.res.clone()).iter().all(|x| x.is_none()) && rng.chance(9, 10) {
+            let anc = doc.ancestors(i);
+            let n = *rng.pick(&anc);
+            doc.tree[n].attrs.res = Some(res_gen(rng));
         }
     }
-    let w = 100 + rng.range(0, 500);
-    let h = 100 + rng.range(0, 700);
-    PSpec {
-        media: [0, 0, w, h],
-        crop: if rng.chance(1, 3) { Some([5, 5, w - 5, h - 5]) } else { None },
-        trim: if rng.chance(1, 4) { Some([10, 10, w - 10, h - 10]) } else { None },
-        rotate: *rng.pick(&[0, 0, 90, 180, 270]),
-        res_mode: *rng.pick(&[ResMode::Direct, ResMode::Direct, ResMode::Indirect]),
-        res,
-        ops,
-        rest: (0..rng.below(3)).filter_map(|_| if ids.is_empty() { None } else { Some(*rng.pick(&ids)) }).collect(),
-        flate: rng.chance(1, 2),
-        split: rng.chance(1, 4),
+    // several pages may share one /Resources object
+    if np >= 2 && rng.chance(1, 3) {
+        let i = rng.usize(np);
+        let j = (i + 1 + rng.usize(np - 1)) % np;
+        if let Some(r) = doc.pages[i].attrs.res.clone() {
+            doc.pages[i].res_mode = ResMode::Indirect;
+            doc.pages[j].attrs.res = Some(r);
+            doc.pages[j].res_mode = ResMode::SharedWith(i);
+        }
+    }
+    // operations: mostly names of the effective dictionary, also names that exist only in a shadowed
+    // ancestor dictionary or nowhere; every category, every operator that can name it
+    for i in 0..np {
+        let levels: Vec<Vec<ResSpec>> = doc.chain(i, &|a| a.res.clone()).into_iter().flatten().collect();
+        let mut ops = vec![];
+        for _ in 0..rng.below(10) {
+            let c = rng.below(10);
+            if c < 6 && !levels.is_empty() {
+                let lvl = if rng.chance(4, 5) { &levels[0] } else { rng.pick(&levels) };
+                let (kind, name) = if !lvl.is_empty() && rng.chance(5, 6) {
+                    let r = rng.pick(lvl);
+                    // the same name in another category: the collision the per-category tables must keep apart
+                    if rng.chance(1, 4) { (if o.all_kinds { rng.usize(7) } else { *rng.pick(&[0usize, 1, 2, 6]) }, r.name) } else { (r.kind, r.name) }
+                } else { (if o.all_kinds { rng.usize(7) } else { *rng.pick(&[0usize, 1, 2, 6]) }, 1 + rng.below(4)) };
+                ops.push(OpSpec::Use(kind, name, rng.below(6) as u8));
+            } else if c < 7 && !ids.is_empty() {
+                ops.push(OpSpec::Inline((0..1 + rng.below(2)).map(|_| *rng.pick(&ids)).collect()));
+            } else {
+                ops.push(OpSpec::Other(rng.below(8)));
+            }
+        }
+        doc.pages[i].ops = ops;
+    }
+    doc
+}
+
+fn count_doc(st: &mut dyn FnMut(&str), doc: &PDoc) {
+    st(if doc.collide { "names=shared-across-categories" } else { "names=per-category" });
+    for i in 0..doc.pages.len() {
+        let p = &doc.pages[i];
+        let place = |c: Vec<bool>| -> &'static str {
+            match c.iter().position(|x| *x) { None => "absent", Some(0) => "own", Some(1) => "parent", Some(2) => "grand-parent", _ => "great-grand-parent" }
+        };
+        st(&format!("MediaBox={}", place(doc.chain(i, &|a| a.media).iter().map(|x| x.is_some()).collect())));
+        st(&format!("CropBox={}", place(doc.chain(i, &|a| a.crop).iter().map(|x| x.is_some()).collect())));
+        st(&format!("Rotate={}", place(doc.chain(i, &|a| a.rotate).iter().map(|x| x.is_some()).collect())));
+        st(&format!("Resources={}", place(doc.chain(i, &|a| a.res.clone()).iter().map(|x| x.is_some()).collect())));
+        if matches!(p.res_mode, ResMode::SharedWith(_)) { st("resources=object-shared-by-two-pages"); }
+        if p.no_contents { st("page=no-contents"); }
+        if p.cat_indirect != 0 { st("resources=indirect-category-dictionary"); }
+        // a name used by the operations in two categories
+        let mut by_name: BTreeMap<u64, BTreeSet<usize>> = BTreeMap::new();
+        for o in &p.ops { if let OpSpec::Use(k, n, _) = o { by_name.entry(*n).or_default().insert(*k); } }
+        if doc.collide && by_name.values().any(|s| s.len() > 1) { st("page=one-name-used-in-several-categories"); }
     }
 }
 
-fn page_stream(driver: &Driver, seed: u64, n: u64) -> Stream {
+/// compare a batch of page documents: `c20.tpage` on every document, `c20.frompage` on every page of it
+fn run_page_docs(driver: &Driver, st: &mut Stream, sf: &mut Stream, docs: &[(PDoc, Graph, Vec<u32>, Layout, u64)]) {
+    let mut reqs = vec![];
+    let mut cases = vec![];
+    let mut freqs = vec![];
+    let mut fcases = vec![];
+    for (doc, g, order, layout, pre) in docs {
+        let bytes = page_doc(doc, g, &[], *layout);
+        let page_fields: Vec<String> = order.iter().map(|i| doc.page_model(*i as usize)).collect();
+        reqs.push(format!("c20.tpage {} {} {} {}", g.len() + 2, pre, nodes_str(g), page_fields.join(" ")));
+        cases.push(json!({"kind": "page", "doc": hex(&bytes), "pages": order, "types": types_json(g), "pre": pre}));
+        for i in 0..doc.pages.len() {
+            freqs.push(format!("c20.frompage {}", doc.page_model(i)));
+            fcases.push(json!({"kind": "frompage", "doc": hex(&bytes), "pages": [i]}));
+        }
+    }
+    let resp = driver.ask(&reqs);
+    let risky: Vec<usize> = (0..cases.len()).filter(|i| has_cycle(&docs[*i].1)).collect();
+    let risky_json: Vec<Value> = risky.iter().map(|i| cases[*i].clone()).collect();
+    let mut risky_map: BTreeMap<usize, String> = BTreeMap::new();
+    for (i, r) in risky.iter().zip(run_in_children(&risky_json, 10).into_iter()) {
+        risky_map.insert(*i, match r { Ok(v) => v.as_str().unwrap_or("bad-child-answer").to_string(), Err(e) => e });
+    }
+    for i in 0..cases.len() {
+        let imp = match risky_map.remove(&i) { Some(a) => a, None => exec_page(&cases[i]) };
+        let g = &docs[i].1;
+        let typed = |o: u64| g.get(&o).map(|n| matches!(n.ty, NT::Res | NT::Form)).unwrap_or(false);
+        let model = canon_model_page(&resp[i], &typed);
+        st.count(if model.contains("err") { "outcome=some-err" } else { "outcome=all-ok" });
+        if model != imp {
+            st.case(&format!("{} # {}", reqs[i], cases[i]), &model, &imp, model.contains(':'));
+        } else {
+            st.case(&reqs[i], &model, &imp, model.contains(':'));
+        }
+    }
+    let fresp = driver.ask(&freqs);
+    for i in 0..fcases.len() {
+        let imp = exec_frompage(&fcases[i]);
+        let model = canon_model_frompage(&fresp[i]);
+        sf.count(if model == "err" { "outcome=err" } else { "outcome=ok" });
+        if model != imp {
+            sf.case(&format!("{} # {}", freqs[i], fcases[i]), &model, &imp, true);
+        } else {
+            sf.case(&freqs[i], &model, &imp, true);
+        }
+    }
+}
+
+/// Exhaustive small domains for the two decisions that depend on *where* something is found:
+///  * one resource name in every subset of the four copied categories × every sequence of ≤ 3 (quick: ≤ 2 plus
+///    the 3-sequences that start with two different categories) operations naming it — "already copied?" is a
+///    question per category;
+///  * every inheritable attribute (MediaBox, CropBox, Resources, Rotate) absent / own / parent / grand-parent /
+///    own + parent / parent + grand-parent, for a page two levels below the root, both entry points.
+fn page_exhaustive(driver: &Driver, thorough: bool) -> (Stream, Stream) {
+    let mut st = Stream::new("c20.page.exhaustive", true);
+    let mut sf = Stream::new("c20.frompage.exhaustive", true);
+    st.exhaustive = true;
+    sf.exhaustive = true;
+    let mut docs: Vec<(PDoc, Graph, Vec<u32>, Layout, u64)> = vec![];
+    let kinds = [0usize, 1, 2, 6];
+    let mut g = Graph::new();
+    g.insert(100, GNode { ty: NT::Dict, k: vec![], a: None, b: None });
+    g.insert(101, GNode { ty: NT::Form, k: vec![], a: None, b: None });
+    g.insert(102, GNode { ty: NT::Dict, k: vec![101], a: None, b: None });
+    // --- name collisions
+    let mut seqs: Vec<Vec<usize>> = vec![];
+    for a in kinds { seqs.push(vec![a]); for b in kinds { seqs.push(vec![a, b]); for c in kinds { if thorough || a != b { seqs.push(vec![a, b, c]); } } } }
+    for subset in 0..16u32 {
+        let res: Vec<ResSpec> = kinds.iter().enumerate().filter(|(i, _)| subset & (1 << i) != 0).map(|(_, k)| ResSpec {
+            kind: *k, name: 1, payload: 50 + *k as u64,
+            kids: match k { 0 => vec![100, 102], 1 => vec![102], 2 => vec![101], _ => vec![100] }, raw: None }).collect();
+        for sq in &seqs {
+            let p = simple_page(res.clone(), sq.iter().map(|k| OpSpec::Use(*k, 1, 0)).collect(), vec![]);
+            st.count(&format!("categories-holding-the-name={}", subset.count_ones()));
+            docs.push((flat_doc(vec![p], true), g.clone(), vec![0], PLAIN, 0));
+        }
+    }
+    // --- inheritance: page below node 2 below node 1 below the root
+    let places = 6u32;
+    let place = |code: u32| -> (bool, bool, bool) { match code { 0 => (false, false, false), 1 => (true, false, false), 2 => (false, true, false), 3 => (false, false, true), 4 => (true, true, false), _ => (false, true, true) } };
+    let font = |name: u64, tgt: u64| ResSpec { kind: 1, name, payload: 0, kids: vec![tgt], raw: None };
+    for code in 0..places.pow(4) {
+        let (m, c, r, ro) = (code % 6, code / 6 % 6, code / 36 % 6, code / 216 % 6);
+        // (own, parent, grand-parent) values: distinct per level
+        let lvl = |p: (bool, bool, bool), base: u64| -> [Option<u64>; 3] { [if p.0 { Some(base) } else { None }, if p.1 { Some(base + 1) } else { None }, if p.2 { Some(base + 2) } else { None }] };
+        let (mv, cv, rv) = (lvl(place(m), 10), lvl(place(c), 50), lvl(place(ro), 0));
+        let rotv = |x: Option<u64>| x.map(|v| [90u64, 180, 270][(v % 3) as usize]);
+        let rp = place(r);
+        // each level's dictionary has the font /F1 → a different object, so the copy tells which level was used
+        let resv = [if rp.0 { Some(vec![font(1, 100)]) } else { None }, if rp.1 { Some(vec![font(1, 102)]) } else { None }, if rp.2 { Some(vec![font(1, 101), font(2, 100)]) } else { None }];
+        let mut p = simple_page(vec![], vec![OpSpec::Use(1, 1, 0), OpSpec::Use(1, 2, 0)], vec![]);
+        p.attrs = Attrs { media: mv[0], crop: cv[0], rotate: rotv(rv[0]), res: resv[0].clone() };
+        p.parent = 2;
+        let tree = vec![
+            TNode { parent: None, attrs: Attrs { media: mv[2], crop: cv[2], rotate: rotv(rv[2]), res: resv[2].clone() }, res_indirect: code % 2 == 0 },
+            TNode { parent: Some(0), attrs: Attrs { media: mv[1], crop: cv[1], rotate: rotv(rv[1]), res: resv[1].clone() }, res_indirect: code % 3 == 0 },
+            TNode { parent: Some(1), attrs: Attrs::default(), res_indirect: false },
+        ];
+        let kids = vec![vec![Kid::Node(1)], vec![Kid::Node(2)], vec![Kid::Page(0)]];
+        docs.push((PDoc { tree, kids, pages: vec![p], collide: false }, g.clone(), vec![0], PLAIN, 0));
+    }
+    st.count(&format!("inheritance-placements={}", places.pow(4)));
+    run_page_docs(driver, &mut st, &mut sf, &docs);
+    (st, sf)
+}
+
+fn page_streams(driver: &Driver, seed: u64, n: u64) -> (Stream, Stream) {
     let mut st = Stream::new("c20.page", true);
+    let mut sf = Stream::new("c20.frompage", true);
     let mut reqs = vec![];
     let mut cases = vec![];
     let mut graphs = vec![];
+    let mut freqs = vec![];
+    let mut fcases = vec![];
     for case in 0..n {
         let mut rng = Rng::derive(seed, "c20.page", case);
         let cyc = rng.chance(1, 8);
         let miss = rng.chance(1, 8);
         // graph nodes are numbered from 100 so that pages, contents and resource objects fit below
-        let g0 = random_graph(&mut rng, cyc, miss);
-        let g: Graph = g0.into_iter().map(|(id, mut nd)| {
-            let sh = |x: u64| if x >= 900 { x } else { x + 90 };
-            nd.k = nd.k.iter().map(|x| sh(*x)).collect(); nd.a = nd.a.map(sh); nd.b = nd.b.map(sh);
-            (id + 90, nd)
-        }).collect();
-        let np = 1 + rng.below(3);
-        let mut pages: Vec<PSpec> = (0..np).map(|_| random_pspec(&mut rng, &g, true)).collect();
-        // at most one page can take its resources from the page tree
-        if rng.chance(1, 4) { let i = rng.usize(pages.len()); pages[i].res_mode = ResMode::Inherited; }
+        let g = shift_graph(random_graph(&mut rng, cyc, miss));
+        let all_kinds = rng.chance(2, 3);
+        let g2 = g.clone();
+        let mut res_gen = move |rng: &mut Rng| random_res_list(rng, &g2, all_kinds);
+        let doc = random_pdoc(&mut rng, &g, DocOpts { all_kinds, max_pages: 3 }, &mut res_gen);
+        let np = doc.pages.len();
         let mut order: Vec<u32> = (0..np as u32).collect();
         rng.shuffle(&mut order);
         if rng.chance(1, 4) { let d = order[0]; order.push(d); }
         let xs = rng.chance(1, 2);
         let layout = Layout { xref_stream: xs, objstm: xs && rng.chance(1, 2), flate: rng.chance(1, 2), encrypt: rng.chance(1, 6) };
-        let doc = page_doc(&pages, &g, &[], layout);
-        let page_fields: Vec<String> = order.iter().map(|i| page_model(&pages[*i as usize])).collect();
-        reqs.push(format!("c20.page {} 0 {} {}", g.len() + 2, nodes_str(&g), page_fields.join(" ")));
-        cases.push(json!({"kind": "page", "doc": hex(&doc), "pages": order, "types": types_json(&g)}));
+        let bytes = page_doc(&doc, &g, &[], layout);
+        let pre = if rng.chance(1, 3) { 1 + rng.below(4) } else { 0 };
+        let page_fields: Vec<String> = order.iter().map(|i| doc.page_model(*i as usize)).collect();
+        reqs.push(format!("c20.tpage {} {} {} {}", g.len() + 2, pre, nodes_str(&g), page_fields.join(" ")));
+        cases.push(json!({"kind": "page", "doc": hex(&bytes), "pages": order, "types": types_json(&g), "pre": pre}));
         st.count(&format!("pages={}", order.len()));
-        for p in &pages {
-            for r in &p.res { st.count(&format!("resource-kind={}", RES_KINDS[r.kind])); }
-            st.count(&format!("res-mode={:?}", p.res_mode));
-        }
+        count_doc(&mut |k| st.count(k), &doc);
         st.count(if has_cycle(&g) { "graph=cyclic" } else { "graph=acyclic" });
+        if pre > 0 { st.count("target=not-empty"); }
+        // the other entry point, one request per page
+        for i in 0..np {
+            freqs.push(format!("c20.frompage {}", doc.page_model(i)));
+            fcases.push(json!({"kind": "frompage", "doc": hex(&bytes), "pages": [i]}));
+        }
+        count_doc(&mut |k| sf.count(k), &doc);
         graphs.push(g);
     }
     let resp = driver.ask(&reqs);
@@ -1110,7 +1532,18 @@ fn page_stream(driver: &Driver, seed: u64, n: u64) -> Stream {
             st.case(&reqs[i], &model, &imp, model.contains(':'));
         }
     }
-    st
+    let fresp = driver.ask(&freqs);
+    for i in 0..fcases.len() {
+        let imp = exec_frompage(&fcases[i]);
+        let model = canon_model_frompage(&fresp[i]);
+        sf.count(if model == "err" { "outcome=err" } else { "outcome=ok" });
+        if model != imp {
+            sf.case(&format!("{} # {}", freqs[i], fcases[i]), &model, &imp, true);
+        } else {
+            sf.case(&freqs[i], &model, &imp, true);
+        }
+    }
+    (st, sf)
 }
 
 // =====================================================================================================
@@ -1487,8 +1920,20 @@ fn res_entry<R: Resolve>(r: &R, resources: &Option<Primitive>, kind: &str, name:
     match cat { Primitive::Dictionary(c) => c.get(name).cloned(), _ => None }
 }
 
+/// the property list of a marked-content operator, if it is not just a name
+fn op_props(op: &Op) -> Option<&Primitive> {
+    match op {
+        Op::BeginMarkedContent { properties: Some(p), .. } | Op::MarkedContentPoint { properties: Some(p), .. } if !matches!(p, Primitive::Name(_)) => Some(p),
+        _ => None,
+    }
+}
+
 fn ops_text(ops: &[Op]) -> Vec<String> {
-    ops.iter().map(|o| format!("{:?}", o)).collect()
+    ops.iter().map(|o| match (o, op_props(o)) {
+        (Op::BeginMarkedContent { tag, .. }, Some(_)) => format!("BeginMarkedContent {} <property list>", tag.as_str()),
+        (Op::MarkedContentPoint { tag, .. }, Some(_)) => format!("MarkedContentPoint {} <property list>", tag.as_str()),
+        _ => format!("{:?}", o),
+    }).collect()
 }
 
 /// all references reachable from `start` resolve (closure); returns the number of objects visited
@@ -1626,6 +2071,7 @@ fn exec_import(case: &Value) -> Value {
             let own = oget("Rotate").is_some();
             failures.push((if own { "rotate-differs" } else { "rotate-inherited-dropped" }.into(), format!("{}: /Rotate {} became {}", tag, orot, nrot)));
         }
+        let eff = (om.clone(), oc.clone(), ot.clone(), orot);
         // --- operations
         let oops = match opage.contents.as_ref().map(|c| c.operations(&ro)) { Some(Ok(o)) => o, Some(Err(_)) => { bump(&mut stats, "source-ops-unreadable"); continue; } None => vec![] };
         let nops = match npage.contents.as_ref().map(|c| c.operations(&rn)) {
@@ -1635,6 +2081,15 @@ fn exec_import(case: &Value) -> Value {
         };
         let (ot, nt) = (ops_text(&oops), ops_text(&nops));
         *stats.entry("operations-compared".into()).or_insert(0) += ot.len() as u64;
+        // property lists of marked-content operators may hold references: compared modulo renaming
+        if ot == nt {
+            for (j, (a, b)) in oops.iter().zip(nops.iter()).enumerate() {
+                if let (Some(pa), Some(pb)) = (op_props(a), op_props(b)) {
+                    let (pa, pb) = (pa.clone(), pb.clone());
+                    cmp.equiv(&format!("{}/operation{}/properties", tag, j), &pa, &pb);
+                }
+            }
+        }
         if ot != nt {
             // is the difference the serialiser's (C08: write + read of the same operations)?
             let rt = pdf::content::serialize_ops(&oops).ok().and_then(|d| pdf::content::parse_ops(&d, &ro).ok()).map(|o| ops_text(&o));
@@ -1651,6 +2106,38 @@ fn exec_import(case: &Value) -> Value {
         let used = used_resources(&oops, &content);
         let ores = inherited(&ro, oref, "Resources");
         let nres = inherited(&rn, nref, "Resources");
+        // --- the other entry point: PageBuilder::from_page (same document, nothing is copied) must see the same
+        //     effective boxes, rotation, operations and the resources the operations name
+        match catch_unwind(AssertUnwindSafe(|| PageBuilder::from_page(opage, &ro))) {
+            Err(_) => failures.push(("panic".into(), format!("{}: PageBuilder::from_page panicked", tag))),
+            Ok(Err(_)) => bump(&mut stats, "from_page=err"),
+            Ok(Ok(pb)) => {
+                bump(&mut stats, "from_page=ok");
+                let rect = |r: &Option<pdf::object::Rectangle>| norm_rect(r.as_ref().map(|r| vec![r.left as f64, r.bottom as f64, r.right as f64, r.top as f64]));
+                if rect(&pb.media_box) != eff.0 { failures.push(("from_page:mediabox-differs".into(), format!("{}: from_page gives MediaBox {:?}, the page has {:?}", tag, rect(&pb.media_box), eff.0))); }
+                if rect(&pb.crop_box) != eff.1 { failures.push(("from_page:cropbox-differs".into(), format!("{}: from_page gives CropBox {:?}, the page has {:?}", tag, rect(&pb.crop_box), eff.1))); }
+                if rect(&pb.trim_box) != eff.2 { failures.push(("from_page:trimbox-differs".into(), format!("{}: from_page gives TrimBox {:?}, the page has {:?}", tag, rect(&pb.trim_box), eff.2))); }
+                if pb.rotate as f64 != eff.3 {
+                    let own = oget("Rotate").is_some();
+                    failures.push((if own { "from_page:rotate-differs" } else { "rotate-inherited-dropped" }.into(), format!("{}: from_page gives /Rotate {}, the page has {}", tag, pb.rotate, eff.3)));
+                }
+                if ops_text(&pb.ops) != ops_text(&oops) { failures.push(("from_page:operations-differ".into(), format!("{}: from_page gives {} operations, the page has {}", tag, pb.ops.len(), oops.len()))); }
+                for (kind, name) in &used {
+                    if res_entry(&ro, &ores, kind, name).is_none() { continue; }
+                    let r = &pb.resources;
+                    let has = match kind.as_str() {
+                        "ExtGState" => r.graphics_states.contains_key(name.as_str()),
+                        "Font" => r.fonts.contains_key(name.as_str()),
+                        "XObject" => r.xobjects.contains_key(name.as_str()),
+                        "ColorSpace" => r.color_spaces.contains_key(name.as_str()),
+                        "Pattern" => r.pattern.contains_key(name.as_str()),
+                        "Properties" => r.properties.contains_key(name.as_str()),
+                        _ => false, // the typed Resources has no /Shading
+                    };
+                    if !has { failures.push((if kind == "Shading" { "resource-not-copied:Shading".to_string() } else { format!("from_page:resource-missing:{}", kind) }, format!("{}: from_page: the operations name /{} of /{} but the builder's resources have no such entry", tag, name, kind))); }
+                }
+            }
+        }
         for (kind, name) in &used {
             let oe = res_entry(&ro, &ores, kind, name);
             let ne = res_entry(&rn, &nres, kind, name);
@@ -1771,7 +2258,7 @@ fn run_import_cases(or: &mut Oracle, seed: u64, stream: &str, cases: Vec<ImportC
                 let imported = v["imported"].as_u64().unwrap_or(0);
                 match c.case.get("expect").and_then(|e| e.as_str()) {
                     Some("success") if imported == 0 => or.fail("witness-import-failed", &format!("{}: importing was expected to succeed: {}", c.label, v["stats"]), replay.clone()),
-                    Some("no-success") if imported != 0 => or.fail("witness-import-succeeded", &format!("{}: importing a cyclic source was expected to end with an error", c.label), replay.clone()),
+                    Some("no-success") if imported != 0 => or.fail("witness-import-succeeded", &format!("{}: importing was expected to end with an error", c.label), replay.clone()),
                     _ => {}
                 }
                 or.case(&c.label, c.nontrivial && imported > 0, || json!({"label": c.label, "imported": imported, "stats": v["stats"]}));
@@ -1915,48 +2402,26 @@ fn rich_objects(rng: &mut Rng, g: &Graph) -> Rich {
 }
 
 /// pages over the rich objects and the graph
-fn rich_pages(rng: &mut Rng, g: &Graph, rich: &Rich, kinds_all: bool) -> Vec<PSpec> {
+/// the pool of resource entries the pages of a generated document draw from (names overlap between the
+/// categories: with shared names `/R1` is a font, an XObject and an ExtGState at once)
+fn rich_pool(rng: &mut Rng, g: &Graph, rich: &Rich, kinds_all: bool) -> Vec<ResSpec> {
     let gids: Vec<u64> = g.keys().cloned().collect();
-    let np = 1 + rng.below(4);
-    // a pool of resource entries shared between the pages
     let mut pool: Vec<ResSpec> = vec![];
     for (i, f) in rich.fonts.iter().enumerate() { pool.push(ResSpec { kind: 1, name: 1 + i as u64, payload: 0, kids: vec![*f], raw: None }); }
     for (i, x) in rich.images.iter().chain(rich.forms.iter()).enumerate() { pool.push(ResSpec { kind: 2, name: 1 + i as u64, payload: 0, kids: vec![*x], raw: None }); }
     for i in 0..2u64 { pool.push(ResSpec { kind: 0, name: 1 + i, payload: 7000 + i, kids: (0..rng.below(3)).filter_map(|_| if gids.is_empty() { None } else { Some(*rng.pick(&gids)) }).collect(), raw: None }); }
     // ExtGState entries with typed fields: soft mask (dictionary with a form), blend mode, dash, font
     if !rich.forms.is_empty() {
-        pool.push(ResSpec { kind: 0, name: 5, payload: 0, kids: vec![], raw: Some(format!("<< /Type /ExtGState /CA 0.5 /ca 0.25 /BM /Multiply /SMask << /Type /Mask /S /Luminosity /G {} 0 R >> /AIS false >>", rng.pick(&rich.forms))) });
+        pool.push(ResSpec { kind: 0, name: 3, payload: 0, kids: vec![], raw: Some(format!("<< /Type /ExtGState /CA 0.5 /ca 0.25 /BM /Multiply /SMask << /Type /Mask /S /Luminosity /G {} 0 R >> /AIS false >>", rng.pick(&rich.forms))) });
     }
-    pool.push(ResSpec { kind: 0, name: 6, payload: 0, kids: vec![], raw: Some("<< /LW 1.5 /LC 1 /LJ 2 /ML 4.5 /D [[3 2] 0] /RI /Perceptual /OP true /op false /OPM 1 /SMask /None /TK true >>".to_string()) });
+    pool.push(ResSpec { kind: 0, name: 4, payload: 0, kids: vec![], raw: Some("<< /LW 1.5 /LC 1 /LJ 2 /ML 4.5 /D [[3 2] 0] /RI /Perceptual /OP true /op false /OPM 1 /SMask /None /TK true >>".to_string()) });
     // (no /Font [ref size] in an ExtGState: that is the one place where a font is cloned as a typed `Font`, and the
     //  typed FontDescriptor drops /Type and unknown keys on writing — typed round trips belong to C15 / C19)
+    for (i, o) in rich.ocgs.iter().enumerate() { pool.push(ResSpec { kind: 6, name: 1 + i as u64, payload: 0, kids: vec![*o], raw: None }); }
     if kinds_all {
         pool.push(ResSpec { kind: 3, name: 1, payload: 0, kids: vec![], raw: None });
-        for (i, o) in rich.ocgs.iter().enumerate() { pool.push(ResSpec { kind: 6, name: 1 + i as u64, payload: 0, kids: vec![*o], raw: None }); }
     }
-    (0..np).map(|_| {
-        let mut res: Vec<ResSpec> = pool.iter().filter(|_| rng.chance(2, 3)).cloned().collect();
-        rng.shuffle(&mut res);
-        let mut ops = vec![];
-        for _ in 0..rng.below(10) {
-            if !res.is_empty() && rng.chance(2, 3) { let r = rng.pick(&res); ops.push(OpSpec::Use(r.kind, r.name)); }
-            else { ops.push(OpSpec::Other(rng.below(8))); }
-        }
-        let w = 200 + rng.range(0, 400);
-        let h = 200 + rng.range(0, 600);
-        PSpec {
-            media: [0, 0, w, h],
-            crop: if rng.chance(1, 3) { Some([10, 10, w - 10, h - 10]) } else { None },
-            trim: if rng.chance(1, 4) { Some([20, 20, w - 20, h - 20]) } else { None },
-            rotate: *rng.pick(&[0, 0, 90, 180, 270]),
-            res_mode: *rng.pick(&[ResMode::Direct, ResMode::Indirect, ResMode::Indirect]),
-            res,
-            ops,
-            rest: (0..rng.below(3)).filter_map(|_| if gids.is_empty() { None } else { Some(*rng.pick(&gids)) }).collect(),
-            flate: rng.chance(1, 2),
-            split: rng.chance(1, 4),
-        }
-    }).collect()
+    pool
 }
 
 fn shift_graph(g0: Graph) -> Graph {
@@ -1967,34 +2432,57 @@ fn shift_graph(g0: Graph) -> Graph {
     }).collect()
 }
 
-/// deterministic witnesses: the open findings (D40, one per category) and the repaired defects (D41, D46)
+fn simple_page(res: Vec<ResSpec>, ops: Vec<OpSpec>, rest: Vec<u64>) -> PSpec {
+    PSpec { attrs: Attrs { media: Some(5), crop: None, rotate: Some(90), res: Some(res) }, trim: None, parent: 0, res_mode: ResMode::Direct, ops, rest,
+        meta: None, vp: vec![], flate: false, split: false, no_contents: false, cat_indirect: 0, entry_indirect: false }
+}
+
+/// all pages directly below the root
+fn flat_doc(pages: Vec<PSpec>, collide: bool) -> PDoc {
+    let kids = vec![(0..pages.len()).map(Kid::Page).collect()];
+    PDoc { tree: vec![TNode { parent: None, attrs: Attrs::default(), res_indirect: false }], kids, pages, collide }
+}
+
+/// deterministic witnesses: the open findings (D40, one per category; inherited /Rotate), the repaired defects
+/// (D40 Properties, D41, D46, D47) and one fixed page per dimension the random documents vary (name shared by
+/// several categories, attributes inherited from the grand-parent, one /Resources object for two pages)
 fn witnesses() -> Vec<ImportCase> {
     let mut out = vec![];
-    let base = |res: Vec<ResSpec>, ops: Vec<OpSpec>, rest: Vec<u64>| PSpec { media: [0, 0, 200, 300], crop: None, trim: None, rotate: 90, res_mode: ResMode::Direct, res, ops, rest, flate: false, split: false };
+    let base = simple_page;
+    let use_ = |k: usize, n: u64| OpSpec::Use(k, n, 0);
+    let case = |label: &str, doc: Vec<u8>, pages: Vec<u32>, expect: Option<&str>| {
+        let mut c = json!({"kind": "import", "doc": hex(&doc), "password": "-", "pages": pages});
+        if let Some(e) = expect { c["expect"] = json!(e); }
+        ImportCase { label: label.to_string(), case: c, child: true, nontrivial: true }
+    };
     let mut g = Graph::new();
     g.insert(100, GNode { ty: NT::Dict, k: vec![], a: None, b: None });
     // D40: one page per category that `deep_clone_op` does not look at
     for (kind, label) in [(3usize, "ColorSpace"), (4, "Pattern"), (5, "Shading")] {
-        let p = base(vec![ResSpec { kind, name: 1, payload: 0, kids: vec![100], raw: None }, ResSpec { kind: 0, name: 1, payload: 5, kids: vec![], raw: None }], vec![OpSpec::Other(0), OpSpec::Use(0, 1), OpSpec::Use(kind, 1), OpSpec::Other(1)], vec![]);
-        let doc = page_doc(&[p], &g, &[], PLAIN);
-        out.push(ImportCase { label: format!("witness D40 {}", label), case: json!({"kind": "import", "doc": hex(&doc), "password": "-", "pages": [0]}), child: true, nontrivial: true });
+        let p = base(vec![ResSpec { kind, name: 1, payload: 0, kids: vec![100], raw: None }, ResSpec { kind: 0, name: 1, payload: 5, kids: vec![], raw: None }], vec![OpSpec::Other(0), use_(0, 1), use_(kind, 1), OpSpec::Other(1)], vec![]);
+        out.push(case(&format!("witness D40 {}", label), page_doc(&flat_doc(vec![p], false), &g, &[], PLAIN), vec![0], None));
+    }
+    // /Rotate given by the page tree only: the library reads the page's own entry (open)
+    {
+        let mut p = base(vec![], vec![OpSpec::Other(0), OpSpec::Other(1)], vec![]);
+        p.attrs.rotate = None;
+        let mut d = flat_doc(vec![p], false);
+        d.tree[0].attrs.rotate = Some(90);
+        out.push(case("witness inherited /Rotate", page_doc(&d, &g, &[], PLAIN), vec![0], None));
     }
     // D40, /Properties part (fixed): BDC with a name operand
     {
-        let p = base(vec![ResSpec { kind: 6, name: 1, payload: 0, kids: vec![100], raw: None }], vec![OpSpec::Other(0), OpSpec::Use(6, 1), OpSpec::Other(1)], vec![]);
-        let doc = page_doc(&[p], &g, &[], PLAIN);
-        out.push(ImportCase { label: "regression D40 Properties".into(), case: json!({"kind": "import", "doc": hex(&doc), "password": "-", "pages": [0], "expect": "success"}), child: true, nontrivial: true });
+        let p = base(vec![ResSpec { kind: 6, name: 1, payload: 0, kids: vec![100], raw: None }], vec![OpSpec::Other(0), use_(6, 1), OpSpec::Other(1)], vec![]);
+        out.push(case("regression D40 Properties", page_doc(&flat_doc(vec![p], false), &g, &[], PLAIN), vec![0], Some("success")));
     }
     // D41 (fixed): a page-level entry that leads into a reference cycle; importing must end (with an error)
     let mut gc = Graph::new();
     gc.insert(100, GNode { ty: NT::Dict, k: vec![101], a: None, b: None });
     gc.insert(101, GNode { ty: NT::Arr, k: vec![100], a: None, b: None });
-    let doc = page_doc(&[base(vec![], vec![OpSpec::Other(0), OpSpec::Other(1)], vec![100])], &gc, &[], PLAIN);
-    out.push(ImportCase { label: "regression D41 cycle below a page entry".into(), case: json!({"kind": "import", "doc": hex(&doc), "password": "-", "pages": [0], "expect": "no-success"}), child: true, nontrivial: true });
+    out.push(case("regression D41 cycle below a page entry", page_doc(&flat_doc(vec![base(vec![], vec![OpSpec::Other(0), OpSpec::Other(1)], vec![100])], false), &gc, &[], PLAIN), vec![0], Some("no-success")));
     let mut gs = Graph::new();
     gs.insert(100, GNode { ty: NT::Stm, k: vec![100], a: None, b: None });
-    let doc = page_doc(&[base(vec![ResSpec { kind: 1, name: 1, payload: 0, kids: vec![100], raw: None }], vec![OpSpec::Use(1, 1)], vec![])], &gs, &[], PLAIN);
-    out.push(ImportCase { label: "regression D41 self-referencing font object".into(), case: json!({"kind": "import", "doc": hex(&doc), "password": "-", "pages": [0], "expect": "no-success"}), child: true, nontrivial: true });
+    out.push(case("regression D41 self-referencing font object", page_doc(&flat_doc(vec![base(vec![ResSpec { kind: 1, name: 1, payload: 0, kids: vec![100], raw: None }], vec![use_(1, 1)], vec![])], false), &gs, &[], PLAIN), vec![0], Some("no-success")));
     // D46 (fixed): /Resources object 101 reached as a plain reference (page entry /K) by the first page, then as
     // the /Resources (RcRef) of a form used by the second page
     let mut gr = Graph::new();
@@ -2002,19 +2490,60 @@ fn witnesses() -> Vec<ImportCase> {
     gr.insert(102, GNode { ty: NT::Dict, k: vec![], a: None, b: None });
     gr.insert(103, GNode { ty: NT::Form, k: vec![], a: Some(101), b: None });
     let p1 = base(vec![], vec![OpSpec::Other(0), OpSpec::Other(1)], vec![101]);
-    let p2 = base(vec![ResSpec { kind: 2, name: 1, payload: 0, kids: vec![103], raw: None }], vec![OpSpec::Use(2, 1)], vec![]);
-    let doc = page_doc(&[p1, p2], &gr, &[], PLAIN);
+    let p2 = base(vec![ResSpec { kind: 2, name: 1, payload: 0, kids: vec![103], raw: None }], vec![use_(2, 1)], vec![]);
+    out.push(case("regression D46 object copied as a plain reference, then as an RcRef", page_doc(&flat_doc(vec![p1, p2], false), &gr, &[], PLAIN), vec![0, 1], Some("success")));
     // D47 (fixed): images whose filter chain has parameters beyond the first filter / two parameterised filters
     let head = "/Type /XObject /Subtype /Image /Width 2 /Height 2 /ColorSpace /DeviceRGB /BitsPerComponent 8";
     let rows = vec![vec![1u8, 2, 3, 4, 5, 6], vec![7u8, 8, 9, 10, 11, 12]];
     let img1 = stream_body(&format!("{} /Filter [/ASCIIHexDecode /FlateDecode] /DecodeParms [null << /Predictor 12 /Colors 3 /BitsPerComponent 8 /Columns 2 >>]", head), &ascii_hex(&zlib(&png_up_rows(&rows))));
     let img2 = stream_body(&format!("{} /Filter [/FlateDecode /FlateDecode]", head), &zlib(&zlib(&rows.concat())));
-    for (label, img) in [("regression D47 predictor parameters of the second filter", img1), ("regression D47 two filters with parameters", img2)] {
-        let p = base(vec![ResSpec { kind: 2, name: 1, payload: 0, kids: vec![200], raw: None }], vec![OpSpec::Other(0), OpSpec::Use(2, 1), OpSpec::Other(1)], vec![]);
-        let doc = page_doc(&[p], &Graph::new(), &[(200, img, true)], PLAIN);
-        out.push(ImportCase { label: label.into(), case: json!({"kind": "import", "doc": hex(&doc), "password": "-", "pages": [0], "expect": "success"}), child: true, nontrivial: true });
+    for (label, img) in [("regression D47 predictor parameters of the second filter", img1), ("regression D47 two filters with parameters", img2.clone())] {
+        let p = base(vec![ResSpec { kind: 2, name: 1, payload: 0, kids: vec![200], raw: None }], vec![OpSpec::Other(0), use_(2, 1), OpSpec::Other(1)], vec![]);
+        out.push(case(label, page_doc(&flat_doc(vec![p], false), &Graph::new(), &[(200, img, true)], PLAIN), vec![0], Some("success")));
     }
-    out.push(ImportCase { label: "regression D46 object copied as a plain reference, then as an RcRef".into(), case: json!({"kind": "import", "doc": hex(&doc), "password": "-", "pages": [0, 1], "expect": "success"}), child: true, nontrivial: true });
+    // D49 (fixed): an inline image cannot be written by serialize_ops; building must fail, not panic
+    {
+        let p = base(vec![ResSpec { kind: 3, name: 1, payload: 0, kids: vec![], raw: None }], vec![OpSpec::Other(0), OpSpec::Use(3, 1, 2), OpSpec::Other(1)], vec![]);
+        out.push(case("regression D49 page with an inline image", page_doc(&flat_doc(vec![p], false), &g, &[], PLAIN), vec![0], Some("no-success")));
+    }
+    // --- the dimensions of the random documents, one fixed instance each
+    // one name in four categories, used in both orders of first use
+    for (label, order) in [("dimension: /R1 is a font, an XObject, an ExtGState and a property list (font first)", vec![1usize, 2, 0, 6]), ("dimension: /R1 in four categories (XObject first)", vec![2usize, 6, 1, 0, 2, 1])] {
+        let mut gg = Graph::new();
+        gg.insert(100, GNode { ty: NT::Dict, k: vec![], a: None, b: None });
+        gg.insert(101, GNode { ty: NT::Form, k: vec![], a: None, b: None });
+        gg.insert(102, GNode { ty: NT::Dict, k: vec![], a: None, b: None });
+        let res = vec![ResSpec { kind: 1, name: 1, payload: 0, kids: vec![100], raw: None }, ResSpec { kind: 2, name: 1, payload: 0, kids: vec![101], raw: None },
+            ResSpec { kind: 0, name: 1, payload: 77, kids: vec![102], raw: None }, ResSpec { kind: 6, name: 1, payload: 0, kids: vec![102], raw: None }];
+        let p = base(res, order.iter().map(|k| use_(*k, 1)).collect(), vec![]);
+        out.push(case(label, page_doc(&flat_doc(vec![p], true), &gg, &[], PLAIN), vec![0], Some("success")));
+    }
+    // every inheritable attribute only at the grand-parent; a sibling page with its own
+    {
+        let mut p = base(vec![], vec![use_(1, 1), OpSpec::Other(1)], vec![]);
+        p.attrs = Attrs::default();
+        p.parent = 2;
+        let mut q = base(vec![ResSpec { kind: 1, name: 1, payload: 0, kids: vec![100], raw: None }], vec![use_(1, 1)], vec![]);
+        q.attrs.crop = Some(45);
+        q.parent = 2;
+        let tree = vec![
+            TNode { parent: None, attrs: Attrs { media: Some(7), crop: Some(47), rotate: None, res: Some(vec![ResSpec { kind: 1, name: 1, payload: 0, kids: vec![100], raw: None }]) }, res_indirect: true },
+            TNode { parent: Some(0), attrs: Attrs::default(), res_indirect: false },
+            TNode { parent: Some(1), attrs: Attrs::default(), res_indirect: false },
+        ];
+        let kids = vec![vec![Kid::Node(1)], vec![Kid::Node(2)], vec![Kid::Page(0), Kid::Page(1)]];
+        let d = PDoc { tree, kids, pages: vec![p, q], collide: false };
+        out.push(case("dimension: MediaBox, CropBox, Resources inherited from the grand-parent", page_doc(&d, &g, &[], PLAIN), vec![0, 1, 0], Some("success")));
+    }
+    // two pages, one /Resources object, different subsets used
+    {
+        let res = vec![ResSpec { kind: 1, name: 1, payload: 0, kids: vec![100], raw: None }, ResSpec { kind: 0, name: 2, payload: 9, kids: vec![100], raw: None }];
+        let mut p = base(res.clone(), vec![use_(1, 1)], vec![]);
+        p.res_mode = ResMode::Indirect;
+        let mut q = base(res, vec![use_(0, 2), use_(1, 1)], vec![]);
+        q.res_mode = ResMode::SharedWith(0);
+        out.push(case("dimension: two pages share one /Resources object", page_doc(&flat_doc(vec![p, q], false), &g, &[], PLAIN), vec![1, 0], Some("success")));
+    }
     out
 }
 
@@ -2030,11 +2559,13 @@ fn import_generated(seed: u64, thorough: bool) -> Oracle {
         let g = shift_graph(random_graph(&mut rng, cyc, miss));
         let rich = rich_objects(&mut rng, &g);
         let all_kinds = rng.chance(1, 3);
-        let mut pages = rich_pages(&mut rng, &g, &rich, all_kinds);
-        if rng.chance(1, 5) { let i = rng.usize(pages.len()); pages[i].res_mode = ResMode::Inherited; }
+        let pool = rich_pool(&mut rng, &g, &rich, all_kinds);
+        let mut res_gen = |rng: &mut Rng| { let mut r: Vec<ResSpec> = pool.iter().filter(|_| rng.chance(2, 3)).cloned().collect(); rng.shuffle(&mut r); r };
+        let pdoc = random_pdoc(&mut rng, &g, DocOpts { all_kinds, max_pages: 4 }, &mut res_gen);
+        let pages = &pdoc.pages;
         let xs = rng.chance(1, 2);
         let layout = Layout { xref_stream: xs, objstm: xs && rng.chance(2, 3), flate: rng.chance(1, 2), encrypt: rng.chance(1, 4) };
-        let doc = page_doc(&pages, &g, &rich.objs, layout);
+        let doc = page_doc(&pdoc, &g, &rich.objs, layout);
         let np = pages.len() as u32;
         let mut order: Vec<u32> = (0..np).collect();
         match rng.below(4) { 0 => {} 1 => order.reverse(), 2 => rng.shuffle(&mut order), _ => { rng.shuffle(&mut order); order.truncate(1 + rng.usize(np as usize)); } }
@@ -2043,6 +2574,7 @@ fn import_generated(seed: u64, thorough: bool) -> Oracle {
         or.count(if layout.objstm && !layout.encrypt { "layout=object-streams" } else if layout.xref_stream { "layout=xref-stream" } else { "layout=classic" });
         or.count(if has_cycle(&g) { "graph=cyclic" } else { "graph=acyclic" });
         or.count(if all_kinds { "resources=all-categories" } else { "resources=handled-categories" });
+        count_doc(&mut |k| or.count(k), &pdoc);
         cases.push(ImportCase {
             label: format!("generated #{} pages {:?}", case, order),
             case: json!({"kind": "import", "doc": hex(&doc), "password": "-", "pages": order}),
@@ -2065,7 +2597,7 @@ fn replay_correspondence(driver: &Driver, stream: &str, text: &str) -> Stream {
     let imp = match run_in_children(&[case.clone()], 20).pop() { Some(Ok(v)) => v.as_str().unwrap_or("bad-child-answer").to_string(), Some(Err(e)) => e, None => "not-run".into() };
     let types = &case["types"];
     let typed = |o: u64| matches!(types[o.to_string()].as_str().unwrap_or(""), "Res" | "Form");
-    let model = if case["kind"] == "page" { canon_model_page(&resp[0], &typed) } else { canon_model_clone(&resp[0], &parse_edges(case["roots"].as_str().unwrap_or("-")), &typed) };
+    let model = if case["kind"] == "page" { canon_model_page(&resp[0], &typed) } else if case["kind"] == "frompage" { canon_model_frompage(&resp[0]) } else { canon_model_clone(&resp[0], &parse_edges(case["roots"].as_str().unwrap_or("-")), &typed) };
     st.case(text, &model, &imp, true);
     st
 }
@@ -2093,7 +2625,12 @@ pub fn run(driver: &Driver, seed: u64, thorough: bool, replay: Option<&serde_jso
     let mut rep = Report::new("C20");
     rep.streams.push(clone_exhaustive(driver, if thorough { 3 } else { 2 }));
     rep.streams.push(clone_random(driver, seed, if thorough { 100_000 } else { 15_000 }));
-    rep.streams.push(page_stream(driver, seed, if thorough { 50_000 } else { 8000 }));
+    let (sp, sf) = page_streams(driver, seed, if thorough { 50_000 } else { 8000 });
+    rep.streams.push(sp);
+    rep.streams.push(sf);
+    let (ep, ef) = page_exhaustive(driver, thorough);
+    rep.streams.push(ep);
+    rep.streams.push(ef);
     rep.oracles.push(import_generated(seed, thorough));
     rep.oracles.push(import_corpus(seed, thorough));
     rep
